@@ -12,7 +12,8 @@ def run(tier, seed):
     c = vlib.Check("C01", tier, seed, "proof")
     c.prove("C01.v")
     tokprops.run_stream(c, tier, seed, ("roundtrip",),
-                        "non-trivial = input contains markup characters or produced a non-Text token; distinct by (text, context, skip)")
+                        "non-trivial = input contains markup characters or produced a non-Text token; distinct by (text, context, skip)",
+                        builder_tie=True)
     _setters(c, tier, seed)
     c.assumptions += ["tokenizer round trip is validated by testing, not proved (PARTIAL, see DESIGN.md C01)"]
     return c.finish()
@@ -25,7 +26,7 @@ def _setters(c, tier, seed):
     import wikigen
     rng = random.Random(seed + 101)
     n = 1500 if tier == "quick" else 40000
-    base = mwparserfromhell.parse("{{t|a=b}}[[l|t]][http://x y]==h==\n<b a=\"c\">x</b>{{{n|d}}}")
+    base = mwparserfromhell.parse("{{t|a=b}}[[l|t]][http://x y]\n==h==\n<b a=\"c\">x</b>{{{n|d}}}")
     tpl, wl, el, hd, tag, arg = (base.filter_templates()[0], base.filter_wikilinks()[0], base.filter_external_links()[0],
                                  base.filter_headings()[0], base.filter_tags()[0], base.filter_arguments()[0])
     targets = [(tpl, "name"), (wl, "title"), (wl, "text"), (el, "url"), (el, "title"), (hd, "title"), (tag, "contents"),
